@@ -1,6 +1,7 @@
 //@ unit u_graph
 #![allow(unused_imports)]
 use vstd::prelude::*;
+use vstd::std_specs::cmp::*;
 use std::collections::{HashMap, HashSet};
 use std::sync::Arc;
 use std::hash::Hash;
@@ -17,7 +18,7 @@ where
     T: Eq + Clone + PartialOrd + Ord + Hash + Send + Sync + Display,
     A: Clone,
 {
-//@ extract fn src/node.rs from_name props=C01,C20
+//@ extract fn src/node.rs from_name props=C01,C20 ty=Node
 //@ rewrite
 -> Arc<Node<T, A>>
 //@ with
@@ -30,12 +31,70 @@ where
 //@ end
 }
 
+impl<T, A> Edge<T, A>
+where
+    T: Eq + Clone + PartialOrd + Ord + Hash + Send + Sync + Display,
+    A: Clone,
+{
+//@ extract fn src/edge.rs new props=C01,C20 ty=Edge
+//@ rewrite
+-> Arc<Edge<T, A>>
+//@ with
+-> (r: Arc<Edge<T, A>>)
+//@ rewrite
+f64::NAN
+//@ with
+vf64_nan()
+//@ spec
+    ensures
+        // [C01.edge.new_fields]
+        r.u == u, r.v == v, r.attributes.is_none(), r.weight == f64_nan(),
+//@ end
+
+//@ extract fn src/edge.rs with_weight props=C01,C20 ty=Edge
+//@ rewrite
+-> Arc<Edge<T, A>>
+//@ with
+-> (r: Arc<Edge<T, A>>)
+//@ spec
+    ensures
+        // [C01.edge.with_weight_fields]
+        r.u == u, r.v == v, r.attributes.is_none(), r.weight == weight,
+//@ end
+
+//@ extract fn src/edge.rs reversed props=C01,C20 ty=Edge
+//@ rewrite
+-> Edge<T, A>
+//@ with
+-> (r: Edge<T, A>)
+//@ spec
+    ensures
+        // [C01.edge.reversed_flips]
+        r.u == self.v, r.v == self.u, r.attributes == self.attributes, r.weight == self.weight,
+//@ end
+
+//@ extract fn src/edge.rs ordered props=C01,C20 ty=Edge
+//@ rewrite
+-> Edge<T, A>
+//@ with
+-> (r: Edge<T, A>)
+//@ spec
+    requires
+        key_model_ok::<T>(),
+    ensures
+        // [C01.edge.ordered_canonical]
+        r.attributes == self.attributes, r.weight == self.weight,
+        tgt(self.u, self.v) ==> r.u == self.v && r.v == self.u,
+        !tgt(self.u, self.v) ==> r.u == self.u && r.v == self.v,
+//@ end
+}
+
 impl<T, A> Graph<T, A>
 where
     T: Eq + Clone + PartialOrd + Ord + Hash + Send + Sync + Display,
     A: Clone,
 {
-//@ extract fn src/graph/creation.rs new props=C01,C20
+//@ extract fn src/graph/creation.rs new props=C01,C20 ty=Graph
 //@ rewrite
 -> Graph<T, A>
 //@ with
@@ -51,7 +110,7 @@ where
         g.specs == specs,
 //@ end
 
-//@ extract fn src/graph/query.rs get_node_index props=C02,C20
+//@ extract fn src/graph/query.rs get_node_index props=C02,C20 ty=Graph
 //@ rewrite
 -> Result<usize, Error>
 //@ with
@@ -63,10 +122,10 @@ where
         // [C02.lookup.name_to_index]
         self.nodes_map@.contains_key(*node_name) ==> r.is_ok() && r.unwrap() == self.nodes_map@[*node_name]
             && r.unwrap() < self.nodes_vec@.len() && self.nodes_vec@[r.unwrap() as int].name == *node_name,
-        !self.nodes_map@.contains_key(*node_name) ==> r.is_err() && r.unwrap_err().kind == ErrorKind::NodeNotFound,
+        !self.nodes_map@.contains_key(*node_name) ==> is_err_kind(r, ErrorKind::NodeNotFound),
 //@ end
 
-//@ extract fn src/graph/query.rs get_node props=C02,C20
+//@ extract fn src/graph/query.rs get_node props=C02,C20 ty=Graph
 //@ rewrite
 -> Option<&Arc<Node<T, A>>>
 //@ with
@@ -80,7 +139,7 @@ where
         !self.nodes_map@.contains_key(name) ==> r.is_none(),
 //@ end
 
-//@ extract fn src/graph/query.rs has_node props=C02,C20
+//@ extract fn src/graph/query.rs has_node props=C02,C20 ty=Graph
 //@ rewrite
 -> bool
 //@ with
@@ -93,7 +152,7 @@ where
         r == self.nodes_map@.contains_key(*node_name),
 //@ end
 
-//@ extract fn src/graph/query.rs has_nodes props=C02,C20
+//@ extract fn src/graph/query.rs has_nodes props=C02,C20 ty=Graph
 //@ rewrite
 -> bool
 //@ with
@@ -114,7 +173,7 @@ for node_name in it: node_names
                 forall|i: int| 0 <= i < it.index@ ==> self.nodes_map@.contains_key(#[trigger] node_names@[i]),
 //@ end
 
-//@ extract fn src/graph/query.rs number_of_nodes props=C09,C20
+//@ extract fn src/graph/query.rs number_of_nodes props=C09,C20 ty=Graph
 //@ rewrite
 -> usize
 //@ with
@@ -125,7 +184,7 @@ for node_name in it: node_names
         r == self.nodes_vec@.len(),
 //@ end
 
-//@ extract fn src/graph/creation.rs add_node props=C01,C03,C20
+//@ extract fn src/graph/creation.rs add_node props=C01,C03,C20 ty=Graph
 //@ spec
     requires
         old(self).wf_nodes(),
@@ -150,7 +209,87 @@ for node_name in it: node_names
         !old(self).nodes_map@.contains_key(node.name) ==> rows_extended(old(self).successors_vec@, final(self).successors_vec@) && rows_extended(old(self).predecessors_vec@, final(self).predecessors_vec@),
 //@ end
 
-//@ extract fn src/graph/query.rs get_node_by_index props=C02,C20
+//@ extract fn src/graph/query.rs get_edge_by_indexes props=C02,C20 ty=Graph
+//@ rewrite
+-> Result<&Edge<T, A>, Error>
+//@ with
+-> (r: Result<&Edge<T, A>, Error>)
+//@ spec
+    requires
+        self.wf_estore(),
+    ensures
+        // [C02.pair.by_indexes_lookup]
+        self.has_pair(self.canon(u, v).0, self.canon(u, v).1) ==> r.is_ok() && *r.unwrap() == *self.pair_list(self.canon(u, v).0, self.canon(u, v).1)[0],
+        !self.has_pair(self.canon(u, v).0, self.canon(u, v).1) ==> is_err_kind(r, ErrorKind::EdgeNotFound),
+//@ before match self.edges_map.get(&ordered_u) {
+        proof {
+            // instantiate wf_estore at the canonical key: a stored list is never empty
+            if self.has_pair(ordered_u, ordered_v) {
+                assert(self.pair_list(ordered_u, ordered_v).len() > 0);
+            }
+        }
+//@ end
+
+//@ extract fn src/graph/query.rs get_edges_by_indexes props=C02,C20 ty=Graph
+//@ rewrite
+-> Result<Vec<&Arc<Edge<T, A>>>, Error>
+//@ with
+-> (r: Result<Vec<&Arc<Edge<T, A>>>, Error>)
+//@ spec
+    requires
+        self.wf_estore(),
+    ensures
+        // [C02.pair.by_indexes_all_parallel_in_order]
+        self.has_pair(self.canon(u, v).0, self.canon(u, v).1) ==> r.is_ok()
+            && r.unwrap()@.len() == self.pair_list(self.canon(u, v).0, self.canon(u, v).1).len()
+            && forall|k: int| 0 <= k < r.unwrap()@.len() ==> **(#[trigger] r.unwrap()@[k]) == *self.pair_list(self.canon(u, v).0, self.canon(u, v).1)[k],
+        !self.has_pair(self.canon(u, v).0, self.canon(u, v).1) ==> is_err_kind(r, ErrorKind::EdgeNotFound),
+//@ end
+
+//@ extract fn src/graph/query.rs get_edge props=C02,C20 ty=Graph
+//@ rewrite
+-> Result<&Edge<T, A>, Error>
+//@ with
+-> (r: Result<&Edge<T, A>, Error>)
+//@ spec
+    requires
+        self.wf_nodes(),
+        self.wf_estore(),
+    ensures
+        // [C02.pair.get_edge_guard_order]
+        self.specs.multi_edges ==> is_err_kind(r, ErrorKind::WrongMethod),
+        !self.specs.multi_edges && (!self.nodes_map@.contains_key(u) || !self.nodes_map@.contains_key(v)) ==> is_err_kind(r, ErrorKind::NodeNotFound),
+        // [C02.pair.get_edge_answer]
+        !self.specs.multi_edges && self.nodes_map@.contains_key(u) && self.nodes_map@.contains_key(v) ==> ({
+            let c = self.canon(self.nodes_map@[u], self.nodes_map@[v]);
+            &&& self.has_pair(c.0, c.1) ==> r.is_ok() && *r.unwrap() == *self.pair_list(c.0, c.1)[0]
+            &&& !self.has_pair(c.0, c.1) ==> is_err_kind(r, ErrorKind::EdgeNotFound)
+        }),
+//@ end
+
+//@ extract fn src/graph/query.rs get_edges props=C02,C20 ty=Graph
+//@ rewrite
+-> Result<Vec<&Arc<Edge<T, A>>>, Error>
+//@ with
+-> (r: Result<Vec<&Arc<Edge<T, A>>>, Error>)
+//@ spec
+    requires
+        self.wf_nodes(),
+        self.wf_estore(),
+    ensures
+        // [C02.pair.get_edges_guard_order]
+        !self.specs.multi_edges ==> is_err_kind(r, ErrorKind::WrongMethod),
+        self.specs.multi_edges && (!self.nodes_map@.contains_key(u) || !self.nodes_map@.contains_key(v)) ==> is_err_kind(r, ErrorKind::NodeNotFound),
+        // [C02.pair.get_edges_answer]
+        self.specs.multi_edges && self.nodes_map@.contains_key(u) && self.nodes_map@.contains_key(v) ==> ({
+            let c = self.canon(self.nodes_map@[u], self.nodes_map@[v]);
+            &&& self.has_pair(c.0, c.1) ==> r.is_ok() && r.unwrap()@.len() == self.pair_list(c.0, c.1).len()
+                    && forall|k: int| 0 <= k < r.unwrap()@.len() ==> **(#[trigger] r.unwrap()@[k]) == *self.pair_list(c.0, c.1)[k]
+            &&& !self.has_pair(c.0, c.1) ==> is_err_kind(r, ErrorKind::EdgeNotFound)
+        }),
+//@ end
+
+//@ extract fn src/graph/query.rs get_node_by_index props=C02,C20 ty=Graph
 //@ rewrite
 -> Option<&Arc<Node<T, A>>>
 //@ with
